@@ -264,6 +264,18 @@ Proof.
   pose proof (pow2_ge_0 t). pose proof (Rmult_le_pos _ _ H P). lra.
 Qed.
 
+Lemma rsumE_nonneg xs : forall l ts, 0 <= rsum (map2 (fun E t => E * t ^ 2) (nbr gE l xs) ts).
+Proof.
+  assert (P : forall l r t, 0 <= gE l r * t ^ 2).
+  { intros l r t. unfold gE. pose proof (pow2_ge_0 l). pose proof (pow2_ge_0 r). pose proof (pow2_ge_0 t).
+    apply Rmult_le_pos; lra. }
+  induction xs as [|x0 xs IH]; intros l ts; [cbn; lra|].
+  destruct xs as [|x1 xs].
+  - rewrite nbr_one. destruct ts as [|t ts]; cbn [map2 fold_right]; [lra|]. pose proof (P l 0 t). lra.
+  - rewrite nbr_cons2. destruct ts as [|t ts]; cbn [map2 fold_right]; [lra|].
+    pose proof (P l (x1 - x0) t). specialize (IH (x1 - x0) ts). lra.
+Qed.
+
 Lemma lower_core xs : forall l ts,
   rsum (map2 (fun w t => (w * t) ^ 2) (nbr gW l xs) ts) <= rsum (map2 (fun E t => E * t ^ 2) (nbr gE l xs) ts).
 Proof.
@@ -437,7 +449,8 @@ Theorem eout_homogeneous (x y xo e : list R) a b (k : kw R) c : 0 <= c ->
 Proof.
   intros Hc. rewrite !FT_unc. cbn [dflt_zeros]. unfold eout_core. rewrite map_map.
   apply map_ext. intros x'.
-  unfold cropw at 3. rewrite U_select_map. fold (cropw x a b e).
+  replace (cropw x a b (map (Rmult c) e)) with (map (Rmult c) (cropw x a b e))
+    by (unfold cropw; symmetry; apply U_select_map).
   set (fac := if lorch k then _ else _). set (ce := cropw x a b e). set (xc := cropw x a b x).
   unfold vmul. rewrite map2_map_r.
   replace (map2 (fun f xi => f * rsin (xi * x') * (f * rsin (xi * x'))) (map2 (fun f v => mul f (c * v)) fac ce) xc)
@@ -524,17 +537,8 @@ Proof.
   set (x' := nth i xo 0).
   set (ts := map2 (fun f xj => f * rsin (xj * x')) fe xc).
   assert (Lts : length ts = S n) by (unfold ts; rewrite map2_length, Lfe, Ln; apply Nat.min_id).
-  rewrite !pow2_sqrt.
-  2:{ apply U_rsum_nonneg. intros; apply pow2_ge_0. }
-  2:{ unfold eweights. clearbody ts. clear. generalize 0 at 2. revert ts.
-      induction xc as [|x0 xc IH]; intros ts l; [cbn; lra|].
-      assert (P : forall l r t, 0 <= gE l r * t ^ 2).
-      { intros. unfold gE. pose proof (pow2_ge_0 l0). pose proof (pow2_ge_0 r). pose proof (pow2_ge_0 t).
-        apply Rmult_le_pos; lra. }
-      destruct xc as [|x1 xc].
-      - rewrite nbr_one. destruct ts; cbn [map2 fold_right]; [lra|]. pose proof (P l 0 r). lra.
-      - rewrite nbr_cons2. destruct ts as [|t ts]; cbn [map2 fold_right]; [lra|].
-        pose proof (P l (x1 - x0) t). specialize (IH ts (x1 - x0)). lra. }
+  rewrite pow2_sqrt by (unfold eweights; apply rsumE_nonneg).
+  rewrite pow2_sqrt by (apply U_rsum_nonneg; intros; apply pow2_ge_0).
   rewrite (uniform_top h xc n ts Ln Lts Hn).
   2:{ apply unif_of_nth. intros j Hj. apply U. lia. }
   unfold ts. rewrite !(nth_map2 _ _ _ _ 0 0 0) by lia. reflexivity.
@@ -572,3 +576,135 @@ Proof.
   induction M as [|u v l l' Huv M IH]; cbn [map]; constructor; [|exact IH].
   assert (0 < 2 / PI) by (apply Rdiv_lt_0_compat; [lra | apply PI_RGT_0]). nra.
 Qed.
+
+(* ------------------------------------------------------------------ *)
+(* Non-vacuity: concrete instances on which the hypotheses hold        *)
+(* ------------------------------------------------------------------ *)
+
+Ltac rcmp := repeat (match goal with
+  | |- context [Rltb ?a ?b] => first [rewrite (Rltb_true a b) by lra | rewrite (Rltb_false a b) by lra]
+  | |- context [Rleb ?a ?b] => first [rewrite (Rleb_true a b) by lra | rewrite (Rleb_false a b) by lra]
+  end; cbv beta iota).
+
+Definition k_off : kw R := {| rho := 1; bcoh := 1; btot := 1; lorch := false; omitted := false |}.
+Definition k_on : kw R := {| rho := 1; bcoh := 1; btot := 1; lorch := true; omitted := true |}.
+
+(* no window: the whole grid 1,2,3 is kept *)
+Example mask_123 : crop_mask [1;2;3] (wlo [1;2;3] None) (whi [1;2;3] None) = [true; true; true].
+Proof. unfold wlo, whi, vmin, vmax, crop_mask. cbn [minl maxl map]. numR. rcmp. reflexivity. Qed.
+Example cropw_123 {B} (l : list B) : cropw [1;2;3] None None l = select [true; true; true] l.
+Proof. unfold cropw. rewrite mask_123. reflexivity. Qed.
+(* window [1,3] on the grid 0,1,2,3,7 keeps 1,2,3 *)
+Example mask_win : crop_mask [0;1;2;3;7] (wlo [0;1;2;3;7] (Some 1)) (whi [0;1;2;3;7] (Some 3))
+                   = [false; true; true; true; false].
+Proof. unfold wlo, whi, crop_mask. cbn [map]. numR. rcmp. reflexivity. Qed.
+Example cropw_win {B} (l : list B) :
+  cropw [0;1;2;3;7] (Some 1) (Some 3) l = select [false; true; true; true; false] l.
+Proof. unfold cropw. rewrite mask_win. reflexivity. Qed.
+
+(* a fully evaluated instance of the uncertainty channel: grid 1,2,3, unit
+   uncertainties, one output point x' = 1, no Lorch:
+   E = (1/2, 1, 1/2), so eout = sqrt (sin^2 1 / 2 + sin^2 2 + sin^2 3 / 2) *)
+Example eout_concrete :
+  snd (fourier_transform [1;2;3] [0;0;0] [1] None None (Some [1;1;1]) k_off)
+  = [rsqrt ((rsin 1) ^ 2 / 2 + (rsin 2) ^ 2 + (rsin 3) ^ 2 / 2)].
+Proof.
+  rewrite FT_unc. rewrite !cropw_123.
+  cbn [select lorch k_off ones_like map vmul map2 eout_core dflt_zeros].
+  rewrite !etrapz_cons2, etrapz_one_l. numR. f_equal. f_equal. rewrite !Rmult_1_r. field.
+Qed.
+(* the exact trapezoid propagation on the same instance: W = (1/2, 1, 1/2) *)
+Example sigma_concrete :
+  sigma_tw [1;2;3] [1;1;1] 1 = rsqrt ((rsin 1) ^ 2 / 4 + (rsin 2) ^ 2 + (rsin 3) ^ 2 / 4).
+Proof. unfold sigma_tw, tw. rewrite !nbr_cons2, nbr_one. cbn [map2 fold_right]. unfold gW. f_equal. rewrite !Rmult_1_r. field. Qed.
+
+Example eout_value_independent_nonvacuous :
+  let x := [1;2;3] in let y := [0;0;0] in let y' := [5;6;7] in
+  length y = length x /\ length y' = length x /\ y <> y' /\
+  snd (fourier_transform x y [1] None None (Some [1;1;1]) k_on)
+  = snd (fourier_transform x y' [1] None None (Some [1;1;1]) k_on).
+Proof.
+  cbv zeta. split; [reflexivity|]. split; [reflexivity|]. split.
+  - intros E. injection E. intros. lra.
+  - apply eout_value_independent; reflexivity.
+Qed.
+
+Example eout_none_zero_nonvacuous :
+  snd (fourier_transform [1;2;3] [5;6;7] [1;2] None None None k_on) = [0; 0].
+Proof. apply eout_none_zero. Qed.
+
+Example etrapz_weights_nonvacuous :
+  eweights [1;2;4] = [1/2; 5/2; 2] /\ tw [1;2;4] = [1/2; 3/2; 1] /\
+  etrapz [1;2;4] [3;5;7] = 1/2 * 3 + 5/2 * 5 + 2 * 7.
+Proof.
+  split; [|split].
+  - unfold eweights. rewrite !nbr_cons2, nbr_one. unfold gE. repeat f_equal; field.
+  - unfold tw. rewrite !nbr_cons2, nbr_one. unfold gW. repeat f_equal; field.
+  - rewrite !etrapz_cons2, etrapz_one_l. field.
+Qed.
+
+Example eout_formula_nonvacuous :
+  let x := [0;1;2;3;7] in let e := [1;1;1;1;1] in
+  length e = length x /\ cropw x (Some 1) (Some 3) x = [1;2;3] /\ cropw x (Some 1) (Some 3) e = [1;1;1] /\
+  length (ffac x (Some 1) (Some 3) k_on) = 3%nat.
+Proof.
+  cbv zeta. split; [reflexivity|]. split; [|split].
+  - rewrite cropw_win. reflexivity.
+  - rewrite cropw_win. reflexivity.
+  - rewrite ffac_length, cropw_win. reflexivity.
+Qed.
+
+Example eout_homogeneous_nonvacuous : 0 <= 3 /\ map (Rmult 3) [1;2;1] = [3 * 1; 3 * 2; 3 * 1].
+Proof. split; [lra|reflexivity]. Qed.
+
+Example eout_monotone_nonvacuous :
+  Forall2 (fun u v => 0 <= u <= v) [0;1;2] [1;1;3] /\ [0;1;2] <> [1;1;3].
+Proof.
+  split.
+  - repeat constructor; lra.
+  - intros E. injection E. intros. lra.
+Qed.
+
+Example eout_lower_nonvacuous :
+  (* a non-monotone grid is allowed in the lower bound *)
+  let x := [1;3;2] in length [0;0;0] = length x /\ length [1;1;1] = length x /\ (0 < length [1])%nat /\
+  ~ StronglySorted Rle x.
+Proof.
+  cbv zeta. split; [reflexivity|]. split; [reflexivity|]. split; [cbn; lia|].
+  intros S. apply StronglySorted_inv in S. destruct S as [S _].
+  apply StronglySorted_inv in S. destruct S as [_ F]. apply Forall_inv in F. lra.
+Qed.
+
+Example eout_upper_nonvacuous :
+  let x := [0;1;2;3;7] in
+  StronglySorted Rle x /\ StronglySorted Rlt x /\ length [0;0;0;0;0] = length x /\
+  length [1;1;1;1;1] = length x /\ cropw x (Some 1) (Some 3) x = [1;2;3].
+Proof.
+  cbv zeta. split; [|split; [|split; [reflexivity|split; [reflexivity|]]]].
+  - repeat (constructor; [|repeat (constructor; try lra)]). constructor.
+  - repeat (constructor; [|repeat (constructor; try lra)]). constructor.
+  - rewrite cropw_win. reflexivity.
+Qed.
+
+(* the upper bound really needs a monotone grid: on the grid 0,1,0 the middle
+   trapezoid weight vanishes while the code's weight does not *)
+Example upper_needs_monotone :
+  tw [0;1;0] = [1/2; 0; -1/2] /\ eweights [0;1;0] = [1/2; 1; 1/2].
+Proof.
+  split.
+  - unfold tw. rewrite !nbr_cons2, nbr_one. unfold gW. repeat f_equal; field.
+  - unfold eweights. rewrite !nbr_cons2, nbr_one. unfold gE. repeat f_equal; field.
+Qed.
+
+Example eout_uniform_nonvacuous :
+  let x := [0;1;2;3;7] in let xc := cropw x (Some 1) (Some 3) x in
+  length xc = 3%nat /\ (forall j, (j < 2)%nat -> nth (S j) xc 0 - nth j xc 0 = 1).
+Proof.
+  cbv zeta. rewrite cropw_win. cbn [select]. split; [reflexivity|].
+  intros j Hj. destruct j as [|[|j]]; cbn [nth]; try lra. lia.
+Qed.
+
+Example F_to_G_unc_nonvacuous :
+  snd (F_to_G [1;2;3] [0;0;0] [1] (Some [1;1;1]) k_off)
+  = [rsqrt ((rsin 1) ^ 2 / 2 + (rsin 2) ^ 2 + (rsin 3) ^ 2 / 2) * (2 / PI)].
+Proof. rewrite F_to_G_unc_scaling, eout_concrete. reflexivity. Qed.
